@@ -45,8 +45,11 @@ Python → Lean
   (the in-memory function table is `FuncCode.lean`, C12)
 
 Assumed here, established elsewhere: the function's source code does not change during the history
-(C12 has the general `_check_previous_func_code`); `load(dump(v)) = v` (C03); no crash, one user
-(C05/C11).
+(C12 has the general `_check_previous_func_code`; for a `functools.partial`, whose "source" is its
+repr with memory addresses and whose function id is shared by all partials, the harness observes
+"the stored code is another callable's" on the real directory and feeds the wipe that follows to
+this model as an `Op.clearFn` — an input, like the callback's answer); `load(dump(v)) = v` (C03); no
+crash, one user (C05/C11).
 Import-free apart from the two models; total, computable.
 -/
 import JoblibModel.FilterArgs
